@@ -6,6 +6,7 @@ mod cli;
 mod env;
 mod dot;
 mod sets;
+mod gen;
 mod watchdog;
 
 use std::io::Write;
@@ -45,6 +46,7 @@ fn main() {
         "C13" => env::c13(&mut out, tier, &mut rng, &mut st),
         "C14" => dot::c14(&mut out, tier, &mut rng, &mut st),
         "C19" => sets::c19(&mut out, tier, &mut rng, &mut st),
+        "C15" => gen::c15(&mut out, tier, &mut rng, &mut st),
         "C02" => bddprops::c02(&mut out, tier, &mut rng, &mut st),
         "C03" => bddprops::c03(&mut out, tier, &mut rng, &mut st),
         "C04" => bddprops::c04(&mut out, tier, &mut rng, &mut st),
